@@ -18,9 +18,6 @@ theorem fftfreq_zero (n : ℤ) (hn : 1 ≤ n) : (fftfreq n 0 : ℝ) = 0 := by
 
 open ComplexConjugate
 
-/-- the plain DFT kernel `exp(-2πi·a·k/n)` as the shared kernel with the centring cancelled -/
-noncomputable def fker (n : ℕ) (a k : ℤ) : ℂ := ker (1 / n) n n ((n : ℤ) / 2) (-(((n : ℤ) / 2 : ℤ) : ℝ)) a k
-
 theorem fker_symm (n : ℕ) (a k : ℤ) : fker n a k = fker n k a := by
   unfold fker ker cc; congr 1; push_cast; ring
 
@@ -145,5 +142,101 @@ theorem blurCore_total_ge (img k : Arr ℝ) (m n : ℕ) (hm : img.s0 = m) (hn : 
     _ = ‖∑ i ∈ range m, ∑ j ∈ range n, (ifft2 (R := ℝ) (mulKernel (fft2 (R := ℝ) (toCx (K := ℂ) img)) k)).get i j‖ := by
         rw [hY, hval]
     _ ≤ _ := (norm_sum_le _ _).trans (sum_le_sum fun i _ => norm_sum_le _ _)
+
+/-- the complex total of the filtered image is `k[0,0] · Σ img` -/
+theorem sum_filtered (img k : Arr ℝ) (m n : ℕ) (hm : img.s0 = m) (hn : img.s1 = n) (hm0 : 0 < m) (hn0 : 0 < n) :
+    ∑ i ∈ range m, ∑ j ∈ range n, (ifft2 (R := ℝ) (mulKernel (fft2 (R := ℝ) (toCx (K := ℂ) img)) k)).get i j
+      = ((k.get 0 0 * arrSum img : ℝ) : ℂ) := by
+  rw [sum_ifft2 (mulKernel (fft2 (R := ℝ) (toCx (K := ℂ) img)) k) m n hm hn hm0 hn0]
+  simp only [mulKernel, fft2_dc img m n hm hn, CxLike.ofReal]; push_cast; ring
+
+/-! ## circular shifts (DFT shift theorem) -/
+
+theorem emod_range (n : ℕ) (i : ℕ) (hi : i ∈ range n) : ((i : ℤ)) % (n : ℤ) = i :=
+  Int.emod_eq_of_lt (by omega) (by have := mem_range.mp hi; omega)
+
+/-- summing `g((j - b) mod n)` over one period is summing `g` -/
+theorem sum_roll1 {A : Type*} [AddCommMonoid A] (n : ℕ) (g : ℤ → A) (b : ℤ) :
+    ∑ j ∈ range n, g (((j : ℤ) - b) % n) = ∑ j ∈ range n, g j := by
+  have := sum_range_shift_int n (fun z => g (z % n)) (fun z => by simp only [Int.add_emod_right]) b
+  rw [this]
+  exact sum_congr rfl fun j hj => by rw [emod_range n j hj]
+
+/-- one-axis shift theorem for the plain DFT kernel -/
+theorem dft1_roll (n : ℕ) (hn : 0 < n) (g : ℤ → ℂ) (a k : ℤ) :
+    ∑ i ∈ range n, fker n i k * g (((i : ℤ) - a) % n) = fker n a k * ∑ i ∈ range n, fker n i k * g i := by
+  have hper : ∀ z : ℤ, fker n (z + n) k * g ((z + n) % n) = fker n z k * g (z % n) := by
+    intro z
+    rw [Int.add_emod_right, fker_eq, fker_eq]
+    congr 1
+    exact E_congr n hn _ _ ⟨k, by ring⟩
+  have h1 := sum_range_shift_int n (fun z => fker n z k * g (z % n)) hper a
+  have h2 : ∑ i ∈ range n, fker n i k * g ((i : ℤ) % n) = ∑ i ∈ range n, fker n i k * g i :=
+    sum_congr rfl fun i hi => by rw [emod_range n i hi]
+  rw [← h2, ← h1, mul_sum]
+  refine sum_congr rfl fun i _ => ?_
+  simp only [fker_eq]
+  rw [← mul_assoc, ← E_add]; congr 2; ring
+
+theorem conj_fker_mul (n : ℕ) (hn : 0 < n) (u i a : ℤ) :
+    conj (fker n u i) * fker n a u = conj (fker n u ((i - a) % n)) := by
+  simp only [fker_eq, conj_E, ← E_add]
+  apply E_congr n hn
+  rw [Int.emod_def (i - a) n]
+  exact ⟨-(u * ((i - a) / n)), by ring⟩
+
+theorem fft2_roll (x : Arr ℂ) (m n : ℕ) (hm : x.s0 = m) (hn : x.s1 = n) (hm0 : 0 < m) (hn0 : 0 < n) (a b k l : ℤ) :
+    (fft2 (R := ℝ) (roll x a b)).get k l = fker m a k * fker n b l * (fft2 (R := ℝ) x).get k l := by
+  rw [fft2_get_eq (roll x a b) m n hm hn, fft2_get_eq x m n hm hn]
+  simp only [roll, hm, hn]
+  have inner : ∀ j : ℕ, ∑ i ∈ range m, fker m i k * x.get (((i : ℤ) - a) % m) (((j : ℤ) - b) % n)
+      = fker m a k * ∑ i ∈ range m, fker m i k * x.get i (((j : ℤ) - b) % n) :=
+    fun j => dft1_roll m hm0 (fun z => x.get z (((j : ℤ) - b) % n)) a k
+  simp only [inner]
+  have outer := dft1_roll n hn0 (fun z => ∑ i ∈ range m, fker m i k * x.get i z) b l
+  have e1 : ∑ j ∈ range n, (fker m a k * ∑ i ∈ range m, fker m i k * x.get i (((j : ℤ) - b) % n)) * fker n j l
+      = fker m a k * ∑ j ∈ range n, fker n j l * ∑ i ∈ range m, fker m i k * x.get i (((j : ℤ) - b) % n) := by
+    rw [mul_sum]; exact sum_congr rfl fun j _ => by ring
+  rw [e1, outer, mul_assoc]
+  congr 2
+  exact sum_congr rfl fun j _ => mul_comm _ _
+
+theorem roll_get {A : Type} (x : Arr A) (a b i j : ℤ) :
+    (roll x a b).get i j = x.get ((i - a) % x.s0) ((j - b) % x.s1) := rfl
+
+theorem toCx_roll (img : Arr ℝ) (a b : ℤ) : toCx (K := ℂ) (roll img a b) = roll (toCx (K := ℂ) img) a b := rfl
+
+theorem ifft2_mul_roll (img k : Arr ℝ) (m n : ℕ) (hm : img.s0 = m) (hn : img.s1 = n) (hm0 : 0 < m) (hn0 : 0 < n)
+    (a b i j : ℤ) :
+    (ifft2 (R := ℝ) (mulKernel (fft2 (R := ℝ) (toCx (K := ℂ) (roll img a b))) k)).get i j
+      = (ifft2 (R := ℝ) (mulKernel (fft2 (R := ℝ) (toCx (K := ℂ) img)) k)).get ((i - a) % m) ((j - b) % n) := by
+  rw [ifft2_get_eq _ m n hm hn, ifft2_get_eq _ m n hm hn]
+  have hnum : ∀ v ∈ range n,
+      (∑ u ∈ range m, conj (fker m u i) * (mulKernel (fft2 (R := ℝ) (toCx (K := ℂ) (roll img a b))) k).get u v)
+          * conj (fker n v j)
+        = (∑ u ∈ range m, conj (fker m u ((i - a) % m)) * (mulKernel (fft2 (R := ℝ) (toCx (K := ℂ) img)) k).get u v)
+          * conj (fker n v ((j - b) % n)) := by
+    intro v _
+    rw [sum_mul, sum_mul]
+    refine sum_congr rfl fun u _ => ?_
+    rw [← conj_fker_mul m hm0 u i a, ← conj_fker_mul n hn0 v j b]
+    simp only [mulKernel, toCx_roll, fft2_roll (toCx (K := ℂ) img) m n hm hn hm0 hn0]
+    ring
+  rw [sum_congr rfl hnum]
+
+/-- the blur core commutes with circular shifts, for any transfer function -/
+theorem blurCore_roll (img k : Arr ℝ) (m n : ℕ) (hm : img.s0 = m) (hn : img.s1 = n) (hm0 : 0 < m) (hn0 : 0 < n)
+    (a b i j : ℤ) :
+    (blurCore ℂ (roll img a b) k).get i j = (blurCore ℂ img k).get ((i - a) % m) ((j - b) % n) := by
+  show ‖(ifft2 (R := ℝ) (mulKernel (fft2 (R := ℝ) (toCx (K := ℂ) (roll img a b))) k)).get i j‖
+    = ‖(ifft2 (R := ℝ) (mulKernel (fft2 (R := ℝ) (toCx (K := ℂ) img)) k)).get ((i - a) % m) ((j - b) % n)‖
+  rw [ifft2_mul_roll img k m n hm hn hm0 hn0]
+
+theorem arrSum_roll (x : Arr ℝ) (m n : ℕ) (hm : x.s0 = m) (hn : x.s1 = n) (a b : ℤ) :
+    arrSum (roll x a b) = arrSum x := by
+  rw [arrSum_eq, arrSum_eq]
+  simp only [roll, hm, hn, Int.toNat_natCast]
+  rw [sum_roll1 m (fun z => ∑ j ∈ range n, x.get z (((j : ℤ) - b) % n)) a]
+  exact sum_congr rfl fun i _ => sum_roll1 n (fun z => x.get i z) b
 
 end Lentil
